@@ -183,7 +183,7 @@ func traceBytes(o opts) error {
 		class string
 		val   []byte
 	}
-	cases := []tc{{"empty", []byte{}}, {"nul", []byte{0}}, {"nuls", make([]byte, 33)}, {"newlines", []byte("a\nb\r\n\n")},
+	cases := []tc{{"empty", []byte{}}, {"letters", []byte("Token-ABCdef")}, {"high-bytes", []byte{1, 0xff, 2, 0xfe}}, {"nul", []byte{0}}, {"nuls", make([]byte, 33)}, {"newlines", []byte("a\nb\r\n\n")},
 		{"invalid-utf8", []byte{0xff, 0xc0, 0x80, 0xed, 0xa0, 0x80}}, {"all256", all}, {"quote", []byte(`"\u0000\"<>&` + " ")}}
 	sizes := []int{1, 2, 3, 4, 5, 63, 64, 65, 4095, 4096, 70000}
 	if o.profile == "thorough" {
@@ -222,7 +222,12 @@ func traceBytes(o opts) error {
 		cl := setec.Client{Server: ls.hs.URL}
 		name := fmt.Sprintf("bytes/%d", i)
 		// two versions so that get-version and get differ in what they address
-		if _, err := cl.Put(cx, name, []byte("first")); err != nil {
+		// ...the first one almost the value under test (a put must never confuse the two)
+		first := []byte("first")
+		if i%2 == 1 {
+			first = nearDup(r, c.val)
+		}
+		if _, err := cl.Put(cx, name, first); err != nil {
 			return err
 		}
 		ver, err := cl.Put(cx, name, c.val)
